@@ -137,7 +137,7 @@ def check(ctx, src):
     # --- macro fold direction and start
     mx = comp.rm.func("compile_maths_expression")
     ctx.require(mx is not None, "compile_maths_expression not found")
-    ra = pyq.contains(mx, lambda n: isinstance(n, ast.Assign) and norm(n.targets[0]) == "right_associative")
+    ra = pyq.contains(mx, lambda n: isinstance(n, ast.Assign) and isinstance(n.value, ast.Compare) and norm(n.value.left) == "root" and isinstance(n.targets[0], ast.Name))
     ctx.check(ra is not None and norm(ra.value) in ("root == '**'",), "T-FOLD", "macro|right-associative set", f"the macro folds right for `{norm(ra.value) if ra else None}`", R, mx.lineno,
               witness="(** 2 3 2) gives 64 instead of 512, or (- 10 3 2) gives 9", detail="root == '**'")
     start = pyq.contains(mx, lambda n: isinstance(n, ast.Assign) and norm(n) == "ret = compiler.compile(args[-1 if right_associative else 0])")
@@ -181,9 +181,9 @@ def check(ctx, src):
     cmpf = comp.rm.func("compile_compare_op_expression")
     one = pyq.contains(cmpf, lambda n: isinstance(n, ast.If) and norm(n.test) == "len(args) == 1")
     ctx.check(one is not None and norm(one.body[0]) == "return compiler.compile(args[0]) + asty.Constant(expr, value=True)", "T-IDENT", "comparison|unary", "a one-argument comparison must evaluate its argument and be True", R, cmpf.lineno, detail="compile(arg) + True")
-    ops_l = pyq.contains(cmpf, lambda n: isinstance(n, ast.Assign) and norm(n) == "ops = [get_c_op(compiler, root) for _ in args[1:]]")
+    ops_l = pmx.find(cmpf, "ops = [get_c_op(compiler, root) for _ in args[1:]]")
     cmpn = pyq.contains(cmpf, lambda n: isinstance(n, ast.Call) and dotted(n.func) == "asty.Compare")
-    ctx.check(ops_l is not None and cmpn is not None and {k.arg: norm(k.value) for k in cmpn.keywords} == {"left": "exprs[0]", "ops": "ops", "comparators": "exprs[1:]"}, "T-OP", "comparison|chain",
+    ctx.check(ops_l is not None and cmpn is not None and pmx.eq(cmpn, "asty.Compare(expr, left=exprs[0], ops=ops, comparators=exprs[1:])") is not None, "T-OP", "comparison|chain",
               "comparison macros must chain all arguments in one Compare", R, cmpf.lineno, detail="Compare(left=exprs[0], comparators=exprs[1:])")
     for name, want in sorted(UNARY_DOC.items()):
         d = py.defn(name)
